@@ -98,7 +98,9 @@ plan("C10", "c10.py", "messages over the JSON-native boundary corpus and rich ty
      "Proof for Eliot's own code: FileDestination.__call__ hands the file exactly one write holding dumps(message, default=json_default) + linebreak "
      "and then exactly one flush, on every path; at most that single write has happened if anything raises; the message is not modified. "
      "The fidelity of the encoding itself (orjson) is an assumed contract of a Rust extension: decided by the bounded differential driver only "
-     "(labelled bounded, never counted as proved). json_default and FileDestination.__new__ are not yet under contract (driver only).",
+     "(labelled bounded, never counted as proved). json_default is under contract for the documented rich types available in this sandbox (Path -> text, "
+     "date/time -> isoformat(), set -> a list of exactly its elements without raising, complex -> its two parts, anything else TypeError); "
+     "the numpy / pydantic / pandas / polars branches and FileDestination.__new__ are driver-only.",
      "Trusted/assumed: the orjson encode contract (bounded differential in drivers/c10.py), the io model of file.write/flush. "
      "Known findings C10-F1..F4 (dependency limits of orjson).")
 
